@@ -405,6 +405,48 @@ def record_roots(ex, tgt, value_expr):
             ex.paths[n.id] = access_path(ex, value_expr) if isinstance(tgt, ast.Name) else None
 
 
+IMMUTABLE_ANNOTATION_NAMES = {'Optional', 'Union', 'Variable', 'Role', 'Constant', 'Target', 'str', 'int',
+                              'float', 'bool', 'None', 'BasicTriple'}
+
+
+def annotated_immutable(ex, p):
+    """the real function annotates parameter *p* with immutable types only (type annotations of the
+    code under contract are taken as input invariants, T10)"""
+    fdef = getattr(ex, 'real_fdef', None)
+    if fdef is None:
+        return False
+    for a in fdef.args.args + fdef.args.kwonlyargs:
+        if a.arg == p and a.annotation is not None:
+            names = {n.id for n in ast.walk(a.annotation) if isinstance(n, ast.Name)}
+            consts = [n for n in ast.walk(a.annotation) if isinstance(n, ast.Constant) and n.value is not None]
+            return bool(names) and names <= IMMUTABLE_ANNOTATION_NAMES and not consts
+    return False
+
+
+def note_share(ex, tgt, value_expr, val, node):
+    """`obj.attr = e` where e denotes an existing object (not a new one) that a *different*
+    parameter can still reach: from here on the two share it, and a later in-place update of one is
+    seen through the other.  Harmless for immutable values only -- that is the obligation."""
+    r = root_name(tgt.value)
+    f, roots = expr_roots(ex, value_expr)
+    if f:
+        return
+    own = ex.roots.get(r, {r}) if r is not None else set()
+    for p in sorted(roots):
+        if p not in getattr(ex, 'param_names', []) or p == r or p in own:
+            continue
+        if isinstance(value_expr, ast.Name) and value_expr.id == p and annotated_immutable(ex, p):
+            continue                        # the real function's annotation says str / int / None ...
+        if isinstance(val, SModel):
+            continue                        # semantic models are shared by design and never updated
+        if isinstance(val, V):
+            cond = z3.Not(is_list(val.t))
+        else:
+            cond = z3.BoolVal(False)        # dict / set / object: mutable
+        ex.oblige('frame', cond, label='frame[%s]:shared with %s.%s@%s'
+                  % (p, r, tgt.attr, getattr(node, 'lineno', '?')))
+
+
 def depth_of(e):
     d = 0
     while isinstance(e, (ast.Subscript, ast.Attribute)):
